@@ -78,7 +78,7 @@ theorem childLoop_rootK {x0 : Option TT.Entry} (ctx : Ctx) (child : NodeArgs →
           · exact (ih _ _ _ hb).conseq (fun st hp => hp.1) fun _ _ h => h
 
 theorem tail_rootK {x0 : Option TT.Entry} (ctx : Ctx) (a : NodeArgs) (hash : UInt64) (alpha beta : Eval)
-    (hk : hash.toNat = k0) (hb : MaterialBounded a.s) (hα : alpha < 10000) (hβ : 11000 ≤ beta)
+    (hk : hash.toNat = k0) (hα : alpha < 10000) (hβ : 11000 ≤ beta)
     (hx0 : ∀ e, x0 = some e → RootKind e ∧ e.maxDepth - e.depth < a.maxDepth - a.curDepth)
     (child : NodeArgs → M Eval)
     (hchild : ∀ args : NodeArgs, 0 < args.curDepth → Holds (Frame L nT nB k0 x0) (child args) (fun _ => True)) :
@@ -126,7 +126,7 @@ theorem tail_rootK {x0 : Option TT.Entry} (ctx : Ctx) (a : NodeArgs) (hash : UIn
         | some e =>
           simp only
           refine Triple.pure fun st hp => ⟨hp.1.1, hframe st hp.1, fun h => ?_, fun h => absurd h hno⟩
-          have := static_lt hb he
+          have := static_lt he
           exfalso; eomega
       · rw [if_neg hn]
         cases best with
@@ -149,7 +149,7 @@ theorem tail_rootK {x0 : Option TT.Entry} (ctx : Ctx) (a : NodeArgs) (hash : UIn
           cases hx
           exact Or.inl (hp.2.2 (fun h => nomatch h))
 
-theorem probe_rootK (ctx : Ctx) (a : NodeArgs) (hash : UInt64) (hk : hash.toNat = k0) (hb : MaterialBounded a.s)
+theorem probe_rootK (ctx : Ctx) (a : NodeArgs) (hash : UInt64) (hk : hash.toNat = k0)
     (hα : a.alpha < 10000) (hβ : a.beta = 11000) (x0 : Option TT.Entry) (child : NodeArgs → M Eval)
     (hchild : ∀ (x0 : Option TT.Entry) (args : NodeArgs), 0 < args.curDepth →
       Holds (Frame L nT nB k0 x0) (child args) (fun _ => True)) :
@@ -164,7 +164,7 @@ theorem probe_rootK (ctx : Ctx) (a : NodeArgs) (hash : UInt64) (hk : hash.toNat 
   have htail : (∀ e, x0 = some e → e.maxDepth - e.depth < a.maxDepth - a.curDepth) →
       Triple (fun st' => st' = st ∧ (TT.AInv L nT nB st.tt ∧ st.tt.find k0 = x0 ∧ ∀ x, x0 = some x → RootKind x))
         (tail ctx a hash a.alpha a.beta (some child)) (RootPostK L nT nB k0 (a.maxDepth - a.curDepth) x0) := fun hsh =>
-    (tail_rootK g ctx a hash a.alpha a.beta hk hb hα (by rw [hβ]; exact Int.le_refl _) (x0 := x0)
+    (tail_rootK g ctx a hash a.alpha a.beta hk hα (by rw [hβ]; exact Int.le_refl _) (x0 := x0)
       (fun e he => ⟨hkind e he, hsh e he⟩) child (hchild _)).conseq
       (fun st' hp => by rw [hp.1]; exact ⟨hA, Or.inr hfx⟩) fun _ _ h => h
   have hret : ∀ e : TT.Entry, x0 = some e → a.maxDepth - a.curDepth ≤ e.maxDepth - e.depth →
@@ -207,7 +207,7 @@ theorem probe_rootK (ctx : Ctx) (a : NodeArgs) (hash : UInt64) (hk : hash.toNat 
         cases he'
         omega
 
-theorem nodeBody_rootK (ctx : Ctx) (a : NodeArgs) (hk : (Wee.hash ctx.keys a.s).toNat = k0) (hb : MaterialBounded a.s)
+theorem nodeBody_rootK (ctx : Ctx) (a : NodeArgs) (hk : (Wee.hash ctx.keys a.s).toNat = k0)
     (hα : a.alpha < 10000) (hβ : a.beta = 11000) (hcur : a.curDepth = 0) (x0 : Option TT.Entry)
     (child : NodeArgs → M Eval)
     (hchild : ∀ (x0 : Option TT.Entry) (args : NodeArgs), 0 < args.curDepth →
@@ -226,7 +226,7 @@ theorem nodeBody_rootK (ctx : Ctx) (a : NodeArgs) (hk : (Wee.hash ctx.keys a.s).
         else probe ctx a (Wee.hash ctx.keys a.s) (some child))
       (RootPostK L nT nB k0 (a.maxDepth - a.curDepth) x0) := by
     rw [if_neg (by rw [hcur]; simp)]
-    exact probe_rootK g ctx a _ hk hb hα hβ x0 child hchild
+    exact probe_rootK g ctx a _ hk hα hβ x0 child hchild
   split
   · refine Triple.bind (R := fun _ st => TT.AInv L nT nB st.tt ∧ st.tt.find k0 = x0 ∧ ∀ x, x0 = some x → RootKind x)
       (Triple.set fun st' hp => hp.2) fun _ => ?_
@@ -242,12 +242,12 @@ key, all such entries being `RootKind`: afterwards they still are; a winning val
 call's remaining depth; and if `x0` already had at least that remaining depth the entry is still `x0`. -/
 theorem searchNode_rootK (ctx : Ctx) (rem : Nat) (a : NodeArgs) (hk : (Wee.hash ctx.keys a.s).toNat = k0)
     (hk0 : ∀ s, (Wee.hash ctx.keys s).toNat = k0 → ctx.history.contains (Wee.hash ctx.keys s) = true)
-    (hb : MaterialBounded a.s) (hα : a.alpha < 10000) (hβ : a.beta = 11000) (hcur : a.curDepth = 0)
+    (hα : a.alpha < 10000) (hβ : a.beta = 11000) (hcur : a.curDepth = 0)
     (x0 : Option TT.Entry) :
     Triple (fun st => TT.AInv L nT nB st.tt ∧ st.tt.find k0 = x0 ∧ ∀ x, x0 = some x → RootKind x)
       (searchNode ctx (rem + 1) a) (RootPostK L nT nB k0 (a.maxDepth - a.curDepth) x0) := by
   rw [searchNode_succ]
-  exact nodeBody_rootK g ctx a hk hb hα hβ hcur x0 _ fun x0 args hd => searchNode_frame g ctx hk0 rem args hd
+  exact nodeBody_rootK g ctx a hk hα hβ hcur x0 _ fun x0 args hd => searchNode_frame g ctx hk0 rem args hd
 
 end rootK
 
@@ -291,7 +291,7 @@ theorem runWorker_completeK (sd : Nat) (hsd : sd + 1 ≤ B) (best : Option Move)
   subst hK
   subst hH
   have hr := searchNode_rootK (k0 := (hash ctx.keys root).toNat) g ctx sd (rootArgs root (sd + 1) best) rfl
-    (fun s hs => by rw [UInt64.toNat_inj.1 hs]; exact hhist) (dom.bounded _ hD)
+    (fun s hs => by rw [UInt64.toNat_inj.1 hs]; exact hhist)
     (show - Ev.mateInPly 0 < 10000 by decide) root_window.2 rfl (tt.find (hash ctx.keys root).toNat)
     { tt := tt, rng := rng, nodes := 0, polls := polls } ⟨htt.1, rfl, fun x hx => hrk x hx⟩ e stw hexec
   obtain ⟨_, r2, r3, r4⟩ := hr
